@@ -705,7 +705,8 @@ def run(chk: lib.Check):
                                           {"cache": hname, "cached_file": uu + ext, "content_latin1": content.decode("latin-1")[:2000], "content_length": len(content),
                                            "fmt": fmt, "result": repr(res)[:400]})
         # E2: a configured cache without a usable file + fallback == no cache configured, for every keyword of render()/save()
-        fb_rec = RecHandler({other + ".svg": b"<svg>B</svg>", "index.json": b"[]"})
+        third = next(d.uuid for d in all_dgs if d.uuid not in (uu, other))
+        fb_rec = RecHandler({third + ".svg": b"<svg>C</svg>", third + ".png": b"\x89PNG-C", "index.json": b"[]", "x" + uu + ".svg": b"<svg>x</svg>", other + ".svg.bak": b"no"})
         m_fb = capellambse.MelodyModel(aird, diagram_cache=fb_rec, fallback_render_aird=True)
         KWARGS = [{}, {"pretty_print": False}, {"pretty_print": True}, {"c19_unknown_parameter": 1}, {"pretty_print": True, "c19_unknown_parameter": 1}]
 
